@@ -8,6 +8,9 @@ import (
 func sorted(s []string) []string { sort.Strings(s); return s }
 
 func TestAll(t *testing.T) {
+	if Round5Ranges() != 2054 || Round5Sync("abc") != 12 {
+		t.Fatal("fifth review constructs")
+	}
 	if Round4(3) != 18 || IfaceLocks("abc") != 3 || ChanPool([]int{1, 2, 3, 4}) != 30 {
 		t.Fatal("fourth review constructs")
 	}
